@@ -195,11 +195,12 @@ pub fn run_budget(case: &BudgetCase) -> Verdict {
             }
         }
         let balance = mon_budget.balance() as u64;
-        let funded = pm.initial + deposits_started * pm.deposit;
-        if grants * pm.cost + balance > funded {
+        // u128: a corrupted (wrapped) balance must be reported, not overflow the oracle
+        let funded = pm.initial as u128 + deposits_started as u128 * pm.deposit as u128;
+        if grants as u128 * pm.cost as u128 + balance as u128 > funded {
             return Some(format!(
                 "after atomic step {}: {} retries granted x cost {} + balance {} = {} exceeds initial {} + {} deposits x {} = {}",
-                view.step, grants, pm.cost, balance, grants * pm.cost + balance, pm.initial, deposits_started, pm.deposit, funded
+                view.step, grants, pm.cost, balance, grants as u128 * pm.cost as u128 + balance as u128, pm.initial, deposits_started, pm.deposit, funded
             ));
         }
         if balance > pm.max {
@@ -266,7 +267,7 @@ fn linearizable(evs: &[OpEv], p: &Params, final_balance: u64) -> Option<String> 
         } else {
             let mut out = vec![];
             for c in p.ceil_min..=p.max {
-                let v = (bal + p.deposit).min(c);
+                let v = bal.saturating_add(p.deposit).min(c);
                 if !out.contains(&v) {
                     out.push(v);
                 }
